@@ -285,3 +285,72 @@ Qed.
 
 Theorem reachable_good : forall base s, reachable base s -> good base s.
 Proof. intros base s (r & h & ops & R). eapply good_run; [apply good_init|exact R]. Qed.
+
+(** ** consequences *)
+Lemma anc_list_up : forall l n i j, In j (anc_list l n i) -> exists k, (k <= n)%nat /\ j = up l k i.
+Proof.
+  intros l n. induction n as [|n IH]; intros i j H; cbn in H.
+  - destruct H as [<-|[]]. exists O. split; [lia|reflexivity].
+  - destruct H as [<-|H]; [exists O; split; [lia|reflexivity]|]. destruct (IH _ _ H) as (k & Hk & ->). exists (S k). split; [lia|reflexivity].
+Qed.
+
+Lemma quiet_depth_nonneg : forall s, quiet s -> 0 <= hgt (cores s) (tip _ _ s) - hgt (cores s) (root _ _ s).
+Proof. intros s (W & _ & Hn). pose proof (wf_napp_pos s W). lia. Qed.
+
+(** the active chain is fully valid: every block of root..tip is applied, not failed and at the fully-valid level *)
+Theorem chain_full : forall base s, reachable base s ->
+    forall j, In j (chain s) -> exists b, bfind (blocks _ _ s) j = Some b /\ b_act _ b = true /\ valid_upto _ b L_FULL = true.
+Proof.
+  intros base s R j Hj. destruct (reachable_good _ _ R) as (Q & _ & K & T & _).
+  pose proof (proj2 (applied_exactly s Q j) Hj) as Ha. destruct (is_act_find _ _ Ha) as (b & Fb & Ab).
+  exists b. split; [exact Fb|]. split; [exact Ab|].
+  unfold chain in Hj. destruct (anc_list_up _ _ _ _ Hj) as (k & _ & ->).
+  destruct (chain_lvl s Q K T k) as (b2 & Fb2 & Hl). rewrite Fb in Fb2. inversion Fb2; subst b2.
+  destruct K as (_ & _ & _ & _ & C3 & _). destruct (C3 _ _ Fb Ab) as [Hv _].
+  unfold valid_upto. rewrite Hv. cbn. apply N.leb_le. exact Hl.
+Qed.
+
+(** what property C04 needs: in every reachable state every applied block was executed successfully, all groups,
+    on top of the state obtained by replaying its parent's chain root..parent alone from the bootstrap state.
+    With [valid c p := cexec c p <> None] as the contextual validity of a payload command. *)
+Definition cvalid (c : ccmd) (p : pstate) : Prop := cexec c p <> None.
+Lemma cexec_iff_valid : forall c p, (exists p', cexec c p = Some p') <-> cvalid c p.
+Proof. intros c p. unfold cvalid. destruct (cexec c p); split; intros H; [discriminate|eexists; reflexivity|destruct H; discriminate|congruence]. Qed.
+
+Theorem applied_blocks_executed : forall base s, reachable base s ->
+    forall j b, bfind (blocks _ _ s) j = Some b -> b_act _ b = true -> j <> root _ _ s ->
+    exists pp p', replay (bgs s (depth s (b_par _ b)) (b_par _ b)) base = Some pp /\
+                  gsexec pstate ccmd cexec cunexec [] (b_gs _ b) pp = (p', true).
+Proof.
+  intros base s R j b Fb Ab Hjr. pose proof (reachable_good _ _ R) as (Q & _ & K & T & U). pose proof Q as (W & Ta & Hn).
+  assert (Ha : is_act (cores s) j) by (exists (core b); split; [apply find_cfind; exact Fb|exact Ab]).
+  pose proof (proj1 (applied_exactly s Q j) Ha) as Hj. unfold chain in Hj.
+  pose proof (quiet_depth_nonneg s Q) as Hd0.
+  destruct (anc_list_active s (Z.to_nat (hgt (cores s) (tip _ _ s) - hgt (cores s) (root _ _ s))) (tip _ _ s) W Ta) as [Abounds _];
+    [rewrite Z2Nat.id by lia; lia|].
+  destruct (Abounds j Hj) as (_ & Hlo & _). rewrite Z2Nat.id in Hlo by lia.
+  destruct (anc_list_up _ _ _ _ Hj) as (k & _ & Hk).
+  destruct (chain_lvl s Q K T k) as (b2 & Fb2 & Hl). rewrite <- Hk, Fb in Fb2. inversion Fb2; subst b2.
+  pose proof (find_some_in _ _ _ Fb) as [Hin Hid].
+  assert (Hl' : N.leb L_FULL (b_lvl ccmd b) = true) by (apply N.leb_le; exact Hl).
+  destruct (U b Hin Hl') as (p' & Hp'). rewrite Hid in Hp'.
+  pose proof (find_cfind _ _ _ Fb) as Cb.
+  pose proof (wf_parent_height _ _ _ W Cb Hjr) as Hph. change (e_par (core b)) with (b_par ccmd b) in Hph.
+  (* the parent is applied as well, hence not below the root *)
+  destruct (wf_act_closed _ W) as (_ & _ & Cl). destruct (Cl _ _ Fb Ab Hjr) as (pb & Fpb & Apb).
+  assert (Hap : is_act (cores s) (b_par ccmd b)) by (exists (core pb); split; [apply find_cfind; exact Fpb|exact Apb]).
+  pose proof (proj1 (applied_exactly s Q _) Hap) as Hjp. unfold chain in Hjp.
+  destruct (Abounds _ Hjp) as (_ & Hlop & _). rewrite Z2Nat.id in Hlop by lia.
+  assert (Hd : depth s j = S (depth s (b_par ccmd b))).
+  { unfold depth. rewrite Hph.
+    replace (hgt (cores s) (b_par ccmd b) + 1 - hgt (cores s) (root pstate ccmd s)) with (Z.succ (hgt (cores s) (b_par ccmd b) - hgt (cores s) (root pstate ccmd s))) by lia.
+    rewrite Z2Nat.inj_succ by lia. reflexivity. }
+  rewrite Hd in Hp'. unfold bgs in Hp'. cbn [anc_list map rev] in Hp'.
+  assert (Hpar : parent (cores s) j = b_par ccmd b) by (unfold parent; rewrite Cb; reflexivity).
+  rewrite Hpar in Hp'. fold (bgs s (depth s (b_par ccmd b)) (b_par ccmd b)) in Hp'. rewrite replay_app in Hp'.
+  destruct (replay (bgs s (depth s (b_par ccmd b)) (b_par ccmd b)) base) as [pp|]; [|discriminate].
+  assert (Hg : gs_of s j = b_gs ccmd b) by (unfold gs_of; rewrite Fb; reflexivity).
+  rewrite Hg in Hp'. cbn in Hp'.
+  destruct (gsexec pstate ccmd cexec cunexec [] (b_gs ccmd b) pp) as [q ok] eqn:E. destruct ok; [|discriminate].
+  exists pp, q. split; [reflexivity|exact E].
+Qed.
